@@ -172,6 +172,7 @@ package setec
 //@   ensures [C12 apply.inv] storeInv(s) && !s.active.Mutex && handlesKept(s) && net == old(net)
 //@   ensures [C19 apply.drops-only-marked-unreferenced] forall n string :: (old(has(s.active.m, n)) && !has(s.active.m, n)) ==> (has(updates, n) && updates[n] == nil && !has(s.active.f, n))
 //@   ensures [C11,C19 apply.drops-marked] forall n string :: (has(updates, n) && updates[n] == nil && !old(has(s.active.f, n))) ==> !has(s.active.m, n)
+//@   ensures [C19 apply.flags-kept] forall n string :: has(s.active.m, n) ==> (s.active.m[n].Declared == old(s.active.m[n].Declared) && s.active.m[n].LastAccess == old(s.active.m[n].LastAccess))
 //@   ensures [C13 apply.err-only-from-flush] err != nil ==> cacheWrites == old(cacheWrites) + 1
 //@   ensures [C12,C19 apply.no-additions] forall n string :: has(s.active.m, n) ==> old(has(s.active.m, n))
 //@   ensures [C11 apply.installs] forall n string :: (has(updates, n) && updates[n] != nil) ==> (has(s.active.m, n) && s.active.m[n].Secret == updates[n])
@@ -182,6 +183,7 @@ package setec
 //@     invariant [state] storeInv(s) && s.active.Mutex && handlesKept(s) && net == old(net) && cacheWrites == old(cacheWrites)
 //@     invariant [drops] forall n string :: (old(has(s.active.m, n)) && !has(s.active.m, n)) ==> (visited(n) && has(updates, n) && updates[n] == nil && !has(s.active.f, n))
 //@     invariant [noadd] forall n string :: has(s.active.m, n) ==> old(has(s.active.m, n))
+//@     invariant [flags] forall n string :: has(s.active.m, n) ==> (s.active.m[n].Declared == old(s.active.m[n].Declared) && s.active.m[n].LastAccess == old(s.active.m[n].LastAccess))
 //@     invariant [dropped] forall n string :: (visited(n) && updates[n] == nil && !old(has(s.active.f, n))) ==> !has(s.active.m, n)
 //@     invariant [installed] forall n string :: (visited(n) && updates[n] != nil) ==> (has(s.active.m, n) && s.active.m[n].Secret == updates[n])
 //@     invariant [kept] forall n string :: (has(s.active.m, n) && !(visited(n) && updates[n] != nil)) ==> s.active.m[n].Secret == old(s.active.m[n].Secret)
